@@ -365,6 +365,9 @@ func Run(t *testing.T, prop string) {
 				mapOrderChoice = false
 				if pass == 1 {
 					pb, tag = b-1, " (map order)"
+					if thorough && sc.Deep[1] > 0 {
+						pb = b - 1 - sc.Deep[1] // the extra depth of a deep scenario is not repeated here
+					}
 					mapOrderChoice = true
 				}
 				ex := &sched.DelayExplorer{S: s, Bound: pb, DevBound: 1, Shard: run.Shard(), NShards: run.NShards(), Expired: expired}
